@@ -41,6 +41,8 @@ def gen_cases(tier, seed):
         yield {"id": "fill-mixed/%d" % i, "kind": "fill", "mix": "mixed", "order": "default" if i % 3 == 0 else "perm%d" % i, "k": i}
     for k in range(72):
         yield {"id": "slot/%d" % k, "kind": "slot", "k": k}
+    for free in (68, 40, 1):
+        yield {"id": "noslot/%d" % free, "kind": "noslot", "free": free}
     for i in range(12 if thorough else 4):
         for tool in ("assembler", "file_util"):
             yield {"id": "host/%s/%d" % (tool, i), "kind": "host", "tool": tool, "k": i}
@@ -133,6 +135,36 @@ def run_slot(case, ctx):
     ctx.nontriv(case["id"])
 
 
+def run_noslot(case, ctx):
+    """all 72 directory slots in use (built directly), granules free: the addition has to fail with an error"""
+    from cocoasm.virtualfiles.disk import DiskFile
+    img = RD.blank()
+    for s in range(RD.NSLOT):
+        img[RD.DIR + 32 * s:RD.DIR + 32 * s + 32] = b"USED%04d" % s + b"BIN" + bytes([2, 0, 0xFF, 0, 0]) + bytes(16)
+    for g in range(68 - case["free"]):
+        img[RD.FAT + g] = 0xC1
+    d = DiskFile(buffer=list(img))
+    mediamon.set_form("no-slot-state")
+    spec = {"name": "NEWFILE", "ext": "BIN", "type": 2, "dtype": 0, "load": 1, "exec": 2, "data": "0102", "kind": "ml"}
+    wit = {"show": "all 72 directory slots in use, %d granules free, add a 2-byte file" % case["free"]}
+    ctx.mon("no-slot-evaluations")
+    try:
+        d.add_file(G.to_coco(spec))
+    except Exception as e:
+        if type(e).__name__ in ("VirtualFileValidationError", "ValueError"):
+            ctx.outcome("noslot-failed-cleanly")
+            ctx.cell("noslot/%d" % case["free"])
+            ctx.nontriv(case["id"])
+        else:
+            ctx.outcome("noslot-internal-error")
+            ctx.violation("slot-states", "no-slot-free", "FAILED-WITH-INTERNAL-ERROR:%s" % type(e).__name__, dict(wit, error=str(e)[:100]))
+        return
+    post = bytes(d.get_buffer())
+    changed = [s for s in range(RD.NSLOT) if post[RD.DIR + 32 * s:RD.DIR + 32 * s + 32] != bytes(img[RD.DIR + 32 * s:RD.DIR + 32 * s + 32])]
+    ctx.outcome("noslot-stored")
+    ctx.violation("slot-states", "no-slot-free", "STORED-THOUGH-NO-SLOT-FREE", dict(wit, directory_slots_overwritten=changed))
+
+
 def run_host(case, ctx):
     """fill a host .dsk through the CLI until an addition fails; the failing run must leave the file as it was"""
     from cocoasm.virtualfiles.disk import DiskFile
@@ -193,6 +225,8 @@ def run_case(case, ctx):
         return run_fill(case, ctx)
     if case["kind"] == "slot":
         return run_slot(case, ctx)
+    if case["kind"] == "noslot":
+        return run_noslot(case, ctx)
     return run_host(case, ctx)
 
 
@@ -208,4 +242,6 @@ def gate(stats):
         out.append("no history reached F = 0")
     if stats["outcomes"].get("slot-ok", 0) + stats["outcomes"].get("slot-wrong", 0) + stats["outcomes"].get("slot-add-failed", 0) < 72:
         out.append("not all 72 slot states were run")
+    if not stats["outcomes"].get("noslot-failed-cleanly") and not stats["outcomes"].get("noslot-stored"):
+        out.append("no addition to a directory without a free slot was observed")
     return out
